@@ -7,6 +7,21 @@ BASELINE_OFF = ("cd /repo && cargo nextest run --workspace --no-fail-fast --tool
                 "--test-threads 8 --offline || (cd /repo && cargo test --workspace --no-fail-fast --offline)")
 
 CHECKS = {
+ "C07": dict(
+   technique="proptest over executable statement specs; oracle = differential execution on the real SQLite engine against an independent, fully explicit reference rendering of the same spec (three runs per case: reference, inline, bound), rows and table contents compared",
+   text="Exploration: 40 000 (quick) / 1 200 000 (thorough) generated SELECT / INSERT / UPDATE / DELETE statements over a fixed four-table database, normalised by construction into the SQLite-valid, deterministic domain; each is executed as reference SQL, as to_string output and as build output with bound values on fresh copies of the database; results (sequences when ordered, multisets otherwise), RETURNING rows and table snapshots must agree; run-time failures must agree too.",
+   note="Oracle executor = system SQLite 3.40.1; reference renderer = stmt_ref.rs (shares nothing with sea-query). Engine-imposed determinism constraints are built into the generator (stmt_gen::fix_exec) and listed in the evidence; one SQLite 3.40.1 defect (RIGHT / FULL JOIN after a constant-false ON) is kept out of the domain. Also carries C02's engine clause (inline vs bound).",
+   ref="DESIGN.md 4/C07"),
+ "C11": dict(
+   technique="bounded-exhaustive + proptest over templates built as segment lists (the expected output is computed from the segments, never by tokenising) and over (sql, values) pairs produced by build(); oracle = by-construction expected text and value order; inject_parameters(build) == to_string",
+   text="Exploration: every segment list of <= 4 (quick) / 5 (thorough) segments over a 13-segment alphabet x 3 backends x 2 APIs, random templates with quoted segments containing marks, doubled marks, reordered / repeated $n, and random statements whose built form is re-injected and compared with the inline form.",
+   note="Adjacency rules that make a template's reading unambiguous are enforced by construction (see domain_restrictions in the evidence); a lone `$` on Postgres, out-of-range $n and too few values are outside the domain.",
+   ref="DESIGN.md 4/C11"),
+ "C15": dict(
+   technique="stateful / model-based testing over builder call histories (proptest + bounded-exhaustive 'one call per field, one left out' histories); oracle = replay of the same history without the cleared calls / against a fresh statement, equality with pre-operation clones, Debug text and renderings on three backends",
+   text="Exploration: 110 000 (quick) / 1 200 000 (thorough) call histories over SelectStatement (about 65 builder calls, every field reachable) and eleven further builder types, with take / clone / clear_* / reset_* inserted at every position; per-field coverage is measured and a field that is never non-default at an operation point makes the run inconclusive.",
+   note="`==` is applied only between values that share Rc lineage; independently built statements are compared by Debug text and rendering. Nothing is demanded of the left-over of a schema-statement take() beyond what the property states for query statements.",
+   ref="DESIGN.md 4/C15"),
  "C01": dict(
    technique="proptest over structured statement specs (nesting via subqueries, set operations, CTEs); oracle = independent dialect lexer (placeholder count / form / numbering) + independent reading-order model of bound values over uniquely tagged values",
    text="Exploration: 200 000 (quick) / 4 000 000 (thorough) generated SELECT / INSERT / UPDATE / DELETE statements per run across the three backends, with every bound value re-tagged uniquely; the placeholders found by the harness's lexer must match the returned values in number and form, and the returned value sequence must equal the sequence an independent traversal of the spec predicts for that dialect's clause order. All build entry points must agree.",
